@@ -27,7 +27,9 @@ type DSpec struct {
 	Filters   []string `json:"filters,omitempty"`  // chunked only: "gzip:<level>" "shuffle" "fletcher" in option order
 }
 
-// compound layouts: "cmp:num" = {a int32 @0, b float64 @4, c int64 @12}; "cmp:str" = {x float32 @0, s string[6] @4}
+// compound layouts: "cmp:num" = {a int32 @0, b float64 @4, c int64 @12}; "cmp:str" = {x float32 @0, s string[6] @4};
+// "cmp:pad" = {a int32 @0, b float64 @8, c int32 @16}, 24 bytes (the layout a C compiler gives the struct: alignment
+// padding behind a and c); "cmp:ooo" = {hi int64 @8, lo int32 @0, f float32 @4}, 16 bytes (members listed out of offset order)
 type cmpField struct {
 	name  string
 	class core.DatatypeClass
@@ -37,18 +39,49 @@ type cmpField struct {
 var cmpLayouts = map[string][]cmpField{
 	"cmp:num": {{"a", core.DatatypeFixed, 4}, {"b", core.DatatypeFloat, 8}, {"c", core.DatatypeFixed, 8}},
 	"cmp:str": {{"x", core.DatatypeFloat, 4}, {"s", core.DatatypeString, 6}},
+	"cmp:pad": {{"a", core.DatatypeFixed, 4}, {"b", core.DatatypeFloat, 8}, {"c", core.DatatypeFixed, 4}},
+	"cmp:ooo": {{"hi", core.DatatypeFixed, 8}, {"lo", core.DatatypeFixed, 4}, {"f", core.DatatypeFloat, 4}},
+}
+
+// cmpExplicit: member offsets and total size of the layouts that are not packed in member order.
+var cmpExplicit = map[string]struct {
+	offs []uint32
+	size uint32
+}{
+	"cmp:pad": {[]uint32{0, 8, 16}, 24},
+	"cmp:ooo": {[]uint32{8, 0, 4}, 16},
+}
+
+// cmpOffsets returns the byte offset of every member and the element size.
+func cmpOffsets(typ string) ([]uint32, uint32) {
+	if e, ok := cmpExplicit[typ]; ok {
+		return e.offs, e.size
+	}
+	var offs []uint32
+	off := uint32(0)
+	for _, f := range cmpLayouts[typ] {
+		offs = append(offs, off)
+		off += f.size
+	}
+	return offs, off
 }
 
 func (d DSpec) compoundType() (*core.DatatypeMessage, error) {
 	var fields []core.CompoundFieldDef
-	off := uint32(0)
-	for _, f := range cmpLayouts[d.Type] {
+	offs, size := cmpOffsets(d.Type)
+	for i, f := range cmpLayouts[d.Type] {
 		t, err := core.CreateBasicDatatypeMessage(f.class, f.size)
 		if err != nil {
 			return nil, err
 		}
-		fields = append(fields, core.CompoundFieldDef{Name: f.name, Offset: off, Type: t})
-		off += f.size
+		fields = append(fields, core.CompoundFieldDef{Name: f.name, Offset: offs[i], Type: t})
+	}
+	if _, explicit := cmpExplicit[d.Type]; explicit {
+		enc, err := core.EncodeCompoundDatatypeV3(size, fields)
+		if err != nil {
+			return nil, err
+		}
+		return core.ParseDatatypeMessage(enc)
 	}
 	return core.CreateCompoundTypeFromFields(fields)
 }
@@ -78,7 +111,7 @@ func (d DSpec) Base() (kind, base string) {
 		return "enum", d.Type[5:]
 	case d.Type == "str" || d.Type == "objref" || d.Type == "regref" || d.Type == "opaque":
 		return d.Type, ""
-	case d.Type == "cmp:num" || d.Type == "cmp:str":
+	case d.Type == "cmp:num" || d.Type == "cmp:str" || d.Type == "cmp:pad" || d.Type == "cmp:ooo":
 		return "cmp", ""
 	case len(d.Type) > 3 && d.Type[:3] == "vl:":
 		if _, ok := vlTypes[d.Type]; ok {
@@ -134,11 +167,8 @@ func (d DSpec) ElemSize() int {
 	case "opaque":
 		return d.OpaqueLen
 	case "cmp":
-		n := 0
-		for _, f := range cmpLayouts[d.Type] {
-			n += int(f.size)
-		}
-		return n
+		_, size := cmpOffsets(d.Type)
+		return int(size)
 	case "vl":
 		return 16
 	}
@@ -458,9 +488,10 @@ func (d DSpec) Data(dims []uint64, seed, mode int) (raw []byte, goVal any) {
 		}
 		goVal = append([]byte{}, raw...)
 	case "cmp":
-		off := 0
+		offs, esz := cmpOffsets(d.Type)
 		for i := 0; i < n; i++ {
 			for fi, f := range cmpLayouts[d.Type] {
+				off := i*int(esz) + int(offs[fi])
 				v := rawBits(seed, i*7+fi, int(f.size), mode)
 				switch {
 				case f.class == core.DatatypeString:
@@ -475,7 +506,6 @@ func (d DSpec) Data(dims []uint64, seed, mode int) (raw []byte, goVal any) {
 				default:
 					binary.LittleEndian.PutUint64(raw[off:], v)
 				}
-				off += int(f.size)
 			}
 		}
 		goVal = nil
@@ -553,8 +583,9 @@ func (d DSpec) ExpectedCompound(raw []byte, render func(any) string) ([]string, 
 	out := make([]string, n)
 	for i := 0; i < n; i++ {
 		m := map[string]interface{}{}
-		off := i * es
-		for _, f := range fields {
+		offs, _ := cmpOffsets(d.Type)
+		for fi, f := range fields {
+			off := i*es + int(offs[fi])
 			b := raw[off : off+int(f.size)]
 			switch {
 			case f.class == core.DatatypeString:
@@ -575,7 +606,6 @@ func (d DSpec) ExpectedCompound(raw []byte, render func(any) string) ([]string, 
 			default:
 				m[f.name] = int64(binary.LittleEndian.Uint64(b))
 			}
-			off += int(f.size)
 		}
 		out[i] = render(m)
 	}
